@@ -220,6 +220,14 @@ def run(out: Outcome) -> None:
             n_w = rng.choice([104, 120, 140])
             p = {"alpha": 0.01, "min_num_instances": n_w, "num_test_instances": rng.randint(51, n_w // 2)}
         kswin_sensitive(out, rng, p, gen.real_stream(rng, p["min_num_instances"] + rng.randint(5, 40)), runners)
+    # test samples of hundreds of values (binomial coefficients C(2r, r) beyond the range of a double from r = 515 on): a stationary stretch, then a shift that
+    # the KS test of the drawn sample rejects with p ~ 1e-20 .. 1e-100; judged by the property's oracle on the replayed draws
+    for r in ([200, 600, 1200] if thorough else [rng.choice([200, 600]), rng.choice([600, 1200])]):
+        W = rng.randint(2 * r, 3 * r)
+        xs = [rng.gauss(0.0, 1.0) for _ in range(W + rng.randint(3, 12))] + [rng.gauss(rng.choice([1.2, 1.5]), 1.0) for _ in range(r // (2 if thorough else 3))]
+        big: list = []
+        kswin_case(out, rng, {"alpha": rng.choice([0.001, 0.01]), "min_num_instances": W, "num_test_instances": r}, xs, big)
+        out.count("kswin_large_test_samples")
     for seed in [0, 1, 31, 2**31 - 5] + ([7, 12345] if thorough else []):
         kswin_seed_case(out, rng, seed, gen.real_stream(rng, 80))
     kswin_seed_across_processes(out, rng.choice([0, 5, 12345]), gen.real_stream(rng, 60))
